@@ -582,6 +582,22 @@ def fold_registrations(repo, regs, module_order=None):
                          and isinstance(x.targets[0], ast.Name) and x.targets[0].id == it.id]
                 if len(binds) == 1:
                     it = binds[0]
+            # `for k, v in {k1: v1, ...}.items()` is the table ((k1, v1), ...); `for k in {k1: v1}` / `.keys()` its keys
+            def dict_of(e):
+                if isinstance(e, ast.Name):
+                    b = [x.value for x in m.tree.body if isinstance(x, ast.Assign) and len(x.targets) == 1
+                         and isinstance(x.targets[0], ast.Name) and x.targets[0].id == e.id]
+                    e = b[0] if len(b) == 1 else e
+                return e if isinstance(e, ast.Dict) and e.keys and all(k is not None for k in e.keys) else None
+            if isinstance(it, ast.Call) and isinstance(it.func, ast.Attribute) and not it.args and not it.keywords \
+                    and it.func.attr in ('items', 'keys', 'values') and dict_of(it.func.value) is not None:
+                dd = dict_of(it.func.value)
+                if it.func.attr == 'items':
+                    it = ast.Tuple(elts=[ast.Tuple(elts=[k, v], ctx=ast.Load()) for k, v in zip(dd.keys, dd.values)], ctx=ast.Load())
+                else:
+                    it = ast.Tuple(elts=list(dd.keys if it.func.attr == 'keys' else dd.values), ctx=ast.Load())
+            elif dict_of(it) is not None and isinstance(it, (ast.Dict, ast.Name)) and not isinstance(it, ast.Name):
+                it = ast.Tuple(elts=list(it.keys), ctx=ast.Load())
             tnames = None
             if isinstance(st.target, ast.Name):
                 tnames = [st.target.id]
@@ -654,9 +670,56 @@ def fold_registrations(repo, regs, module_order=None):
 
 
 def _subst(node, env):
-    if isinstance(node, ast.Name) and node.id in env:
-        return env[node.id]
-    return node
+    """node with the loop variables of an unrolled registration loop replaced by their constants, string arithmetic on
+    constants folded ('prefix' + k, 'prefix%s' % k, f'prefix{k}') and getattr(X, '<literal>') written X.<literal>."""
+    if node is None or not env:
+        return node
+    if isinstance(node, ast.Name):
+        return env.get(node.id, node)
+    if not any(isinstance(x, ast.Name) and x.id in env for x in ast.walk(node)):
+        return node
+    import copy
+
+    class T(ast.NodeTransformer):
+        def visit_Name(self, n):
+            if n.id in env and isinstance(n.ctx, ast.Load):
+                return ast.copy_location(copy.deepcopy(env[n.id]), n)
+            return n
+
+        def visit_BinOp(self, n):
+            self.generic_visit(n)
+            if isinstance(n.left, ast.Constant) and isinstance(n.right, ast.Constant) and isinstance(n.left.value, str):
+                try:
+                    if isinstance(n.op, ast.Add) and isinstance(n.right.value, str):
+                        return ast.copy_location(ast.Constant(n.left.value + n.right.value), n)
+                    if isinstance(n.op, ast.Mod) and isinstance(n.right.value, (str, int)):
+                        return ast.copy_location(ast.Constant(n.left.value % n.right.value), n)
+                except (TypeError, ValueError):
+                    pass
+            return n
+
+        def visit_JoinedStr(self, n):
+            self.generic_visit(n)
+            parts = []
+            for v in n.values:
+                if isinstance(v, ast.Constant) and isinstance(v.value, str):
+                    parts.append(v.value)
+                elif isinstance(v, ast.FormattedValue) and v.conversion == -1 and v.format_spec is None \
+                        and isinstance(v.value, ast.Constant) and isinstance(v.value.value, str):
+                    parts.append(v.value.value)
+                else:
+                    return n
+            return ast.copy_location(ast.Constant(''.join(parts)), n)
+
+        def visit_Call(self, n):
+            self.generic_visit(n)
+            if isinstance(n.func, ast.Name) and n.func.id == 'getattr' and len(n.args) == 2 and not n.keywords \
+                    and isinstance(n.args[1], ast.Constant) and isinstance(n.args[1].value, str) and n.args[1].value.isidentifier():
+                return ast.copy_location(ast.Attribute(value=n.args[0], attr=n.args[1].value, ctx=ast.Load()), n)
+            return n
+    new = T().visit(copy.deepcopy(node))
+    ast.fix_missing_locations(new)
+    return new
 
 
 def dynamic_registrations(repo, regs):
